@@ -157,8 +157,13 @@ def escapes(stmts, in_loop=False):
 
 
 def message_then_raise(stmts):
-    return bool(stmts) and isinstance(stmts[-1], ast.Raise) and all(_M2.harmless(s) for s in stmts[:-1]) \
-        and not any(isinstance(s, (ast.For, ast.If, ast.While, ast.Try, ast.With)) for s in stmts[:-1])
+    """statements that only build the message, then `raise`: no control flow, no store to an attribute or subscript,
+    no call on self, nothing that touches a namespace or constructs a Name"""
+    def quiet(s):
+        return _M2.harmless(s) and not isinstance(s, (ast.For, ast.If, ast.While, ast.Try, ast.With)) and not any(
+            isinstance(x, ast.Attribute) and (x.attr in ("_namespace", "_assignments") or ast.unparse(x) == "MemoryMap.Name")
+            for x in ast.walk(s))
+    return bool(stmts) and isinstance(stmts[-1], ast.Raise) and all(quiet(s) for s in stmts[:-1])
 
 
 class Opaque(ast.stmt):
